@@ -101,8 +101,11 @@ def gen_int_case(rng):
     # occasionally put a variate exactly on a conditional probability (the comparison is strict)
     vec = dense(state.cores).reshape(-1)
     snap = snapshot([state])
+    given = list(measured)
+    if rng.random() < 0.4:
+        rng.shuffle(given)          # a set of sites: the order in which they are listed must not matter
     with FixedRand(U / 2 ** K):
-        samples, probs = qc.sampling(state, list(measured), S)
+        samples, probs = qc.sampling(state, given, S)
     if not unchanged([state], snap):
         raise AssertionError('sampling modified the quantum state')
     counts = [int(round(p_ * S)) for p_ in probs]
@@ -111,7 +114,7 @@ def gen_int_case(rng):
     rows = [[int(v) for v in r_] for r_ in samples]
     sel = [1 if i in measured else 0 for i in range(n)]
     lit = [1, [lib.cores_lit(state.cores), sel, [[int(v) for v in r_] for r_ in U], K], [rows, counts]]
-    return lit, dict(n=n, measured=measured, S=S, ranks=[int(r_) for r_ in state.ranks])
+    return lit, dict(n=n, measured=measured, given=given, S=S, ranks=[int(r_) for r_ in state.ranks])
 
 
 # ---- numerical side check ---------------------------------------------------------------------------
@@ -135,14 +138,17 @@ def side_case(seed, quick=True):
         state = (1 / state.norm()) * state
         k = rng.randint(1, n)
         measured = sorted(rng.sample(range(n), k))
-        desc.update(measured=measured, ranks=[int(r_) for r_ in state.ranks])
+        given = list(measured)
+        if rng.random() < 0.4:
+            rng.shuffle(given)      # listed in any order: the result is indexed by site
+        desc.update(measured=measured, given=given, ranks=[int(r_) for r_ in state.ranks])
         vec = dense(state.cores).reshape(-1)
         snap = snapshot([state])
         if clause == 'exact':
             S = rng.randint(1, 40)
             U = nrng.random((S, k))
             with FixedRand(U):
-                samples, probs = qc.sampling(state, list(measured), S)
+                samples, probs = qc.sampling(state, list(given), S)
             if not unchanged([state], snap):
                 return 'sampling modified the quantum state', desc
             rows, ties, marg = oracle(vec, n, measured, U)
@@ -161,7 +167,7 @@ def side_case(seed, quick=True):
         # frequencies: many samples, chi-square-type distance to the exact marginal (fixed seed: deterministic)
         S = 4000 if quick else 40000
         np.random.seed(rng.getrandbits(32))
-        samples, probs = qc.sampling(state, list(measured), S)
+        samples, probs = qc.sampling(state, list(given), S)
         if not unchanged([state], snap):
             return 'sampling modified the quantum state', desc
         P = np.abs(vec.reshape([2] * n)) ** 2
